@@ -142,16 +142,33 @@ fn verif_grid() {
         let printed = print_tables(OutputFormat::Text, true, &["input".to_owned()], &[vec![vec![Value::String("GET /index.html 200".to_owned())]]]);
         if printed == vec!["'GET /index.html 200'".to_owned()] || printed == vec!["GET /index.html 200".to_owned()] { Ok(()) } else { Err(format!("a lone input column printed {:?}", printed)) }
     });
+    // timestamps are printed as their text form, also before 1970 and with a fraction of a second
+    {
+        let tdef = "CREATE TABLE t(line = '^ts=(\\\\d+)-(\\\\d+)-(\\\\d+) (\\\\d+):(\\\\d+):(\\\\d+)\\\\.(\\\\d+)$', line[1], line[2], line[3], line[4], line[5], line[6], line[7] => ts TIMESTAMP);";
+        for (i, text) in ["1960-02-03 04:05:06.250", "1969-12-31 23:59:59.999", "1970-01-01 00:00:00.001", "1900-01-01 00:00:00.500", "2021-03-09 14:25:36.750", "1969-12-31 23:59:59.000"].iter().enumerate() {
+            g.case(&format!("timestamp-text-{}", i), move || {
+                let line = format!("ts={}", text);
+                let json = run_opts(tdef, "SELECT ts FROM t", &[join_lines(&[&line])], json_opts());
+                let txt = run_opts(tdef, "SELECT ts FROM t", &[join_lines(&[&line])], DisplayOptions { output_format: OutputFormat::Text, single_result: true, print_result: true });
+                let csv = run_opts(tdef, "SELECT ts FROM t", &[join_lines(&[&line])], DisplayOptions { output_format: OutputFormat::CSV(";".to_owned()), single_result: true, print_result: true });
+                let ok = json.lines() == Some(&vec![format!("{{\"ts\":\"{}\"}}", text)]) && txt.lines() == Some(&vec![format!("ts: {}", text)]) && csv.lines() == Some(&vec!["ts".to_owned(), text.to_string()]);
+                if ok { Ok(()) } else { Err(format!("the timestamp {} printed JSON {:?}, text {:?}, CSV {:?}", text, json, txt, csv)) }
+            });
+        }
+    }
     // through a real query: one record per result row, in result order, in every format
     let def = "CREATE TABLE t(line = '^i=(-?[0-9]*) r=(\\\\S*) s=(.*)$', line[1] => i INT, line[2] => r REAL, line[3] => s TEXT);";
     let lines = ["i=1 r=1.5 s=plain", "i=-9223372036854775808 r=1e308 s=", "i= r= s=x y", "i=9007199254740993 r=0.1 s=naïve 日本", "i=5 r=-0.0 s=last"];
     for (fi, format) in [OutputFormat::Json, OutputFormat::CSV(";".to_owned()), OutputFormat::Text].into_iter().enumerate() {
-        for (qi, query) in ["SELECT i, r, s FROM t", "SELECT * FROM t WHERE i IS NOT NULL", "SELECT s, i FROM t LIMIT 3", "SELECT i, COUNT(*) AS n FROM t GROUP BY i"].iter().enumerate() {
+        for (qi, (query, rows_due)) in [("SELECT i, r, s FROM t", 5usize), ("SELECT * FROM t WHERE i IS NOT NULL", 4), ("SELECT s, i FROM t LIMIT 3", 3), ("SELECT i, COUNT(*) AS n FROM t GROUP BY i", 5),
+                                         ("SELECT s FROM t LIMIT 1", 1), ("SELECT i, s FROM t LIMIT 5", 5), ("SELECT s FROM t WHERE i IS NULL LIMIT 1", 1), ("SELECT i FROM t LIMIT 0", 0), ("SELECT DISTINCT i IS NULL AS z FROM t LIMIT 2", 2)].iter().enumerate() {
             let format = format.clone();
             g.case(&format!("query-f{}-q{}", fi, qi), move || {
                 let reference = match run_opts(def, query, &[join_lines(&lines)], json_opts()) { Outcome::Lines(l, _) => l, other => return Err(format!("{:?}", other)) };
                 match run_opts(def, query, &[join_lines(&lines)], DisplayOptions { output_format: format.clone(), single_result: true, print_result: true }) {
                     Outcome::Lines(l, _) => { let records = if matches!(format, OutputFormat::CSV(_)) { l.len().saturating_sub(1) } else { l.len() };
+                        if reference.len() != *rows_due { return Err(format!("{} over {:?} has {} result rows, JSON format printed {}: {:?}", query, lines, rows_due, reference.len(), reference)); }
+                        if matches!(format, OutputFormat::CSV(_)) && *rows_due > 0 && l.len() != rows_due + 1 { return Err(format!("{} in CSV printed {:?}: one header line and {} records are due", query, l, rows_due)); }
                         if records == reference.len() { Ok(()) } else { Err(format!("{} in format {:?} printed {} records for {} result rows: {:?}", query, format, records, reference.len(), l)) } }
                     other => Err(format!("{:?}", other)),
                 }
